@@ -1646,10 +1646,11 @@ func (l *lexer) read() (rune, error) {
 	switch {
 	case err != nil:
 		l.mu.Lock()
-		switch {
-		case err == io.EOF:
+		if err == io.EOF {
 			l.eof = true
-		case l.err == nil:
+		} else if _, ok := l.err.(Error); ok || l.err == nil {
+			// an error of the source takes precedence over a
+			// syntax error, whichever is found first
 			l.err = err
 		}
 		l.mu.Unlock()
